@@ -19,6 +19,19 @@ def revName (r : RevId) : Str :=
   | some e => e.1.1 ++ b!"@" ++ itoa e.1.2
   | none => b!"?"
 
+/-- control id of a revision for the Standard's evaluator: from the hand-written naming below, not from regenerated metadata -/
+def stdRevName : RevId → Str
+  | .allowPrivEsc8 => b!"allowPrivilegeEscalation@8" | .allowPrivEsc25 => b!"allowPrivilegeEscalation@25"
+  | .appArmor0 => b!"appArmorProfile@0" | .capsBaseline0 => b!"capabilities_baseline@0"
+  | .capsRestricted22 => b!"capabilities_restricted@22" | .capsRestricted25 => b!"capabilities_restricted@25"
+  | .hostNamespaces0 => b!"hostNamespaces@0" | .hostPath0 => b!"hostPathVolumes@0" | .hostPorts0 => b!"hostPorts@0"
+  | .privileged0 => b!"privileged@0" | .procMount0 => b!"procMount@0" | .restrictedVolumes0 => b!"restrictedVolumes@0"
+  | .runAsNonRoot0 => b!"runAsNonRoot@0" | .runAsUser23 => b!"runAsUser@23" | .seLinux0 => b!"seLinuxOptions@0"
+  | .seLinux31 => b!"seLinuxOptions@31" | .seccompB0 => b!"seccompProfile_baseline@0" | .seccompB19 => b!"seccompProfile_baseline@19"
+  | .seccompR19 => b!"seccompProfile_restricted@19" | .seccompR25 => b!"seccompProfile_restricted@25"
+  | .sysctls0 => b!"sysctls@0" | .sysctls27 => b!"sysctls@27" | .sysctls29 => b!"sysctls@29" | .sysctls32 => b!"sysctls@32"
+  | .hostProcess0 => b!"windowsHostProcess@0"
+
 def clevel (j : Json) : R CLevel := do
   match ← j.getStr? with
   | "privileged" => return .privileged
@@ -67,7 +80,8 @@ def handle (j : Json) : R Json := do
     let p ← pod (← fld j "pod")
     let l ← level (← fld j "level")
     let v ← ver (← fld j "version")
-    return Json.mkObj [("results", Json.arr ((stdEval l v p).map jresult).toArray)]
+    return Json.mkObj [("results", Json.arr (((stdRevs l v).zip (stdEval l v p)).map (fun (r, x) =>
+      (jresult x).setObjVal! "rev" (jstr (stdRevName r)))).toArray)]
   | "webhookClassify" =>
     let st := Webhook.classify Generated.maxRequestSize (boolD j "empty") (← natOf (← fld j "size")) (strD j "contentType")
       (boolD j "decodes") (boolD j "v1review") (boolD j "hasRequest")
